@@ -11,7 +11,9 @@ import (
 	"fmt"
 
 	"github.com/go-kid/ioc/app"
+	"github.com/go-kid/ioc/component_definition"
 	"github.com/go-kid/ioc/configure"
+	"github.com/go-kid/ioc/container"
 	"github.com/go-kid/ioc/configure/binder"
 	"github.com/go-kid/ioc/definition"
 	"github.com/go-kid/ioc/syslog"
@@ -23,6 +25,9 @@ type Part struct {
 	ID  int    `json:"id"`
 	Cls string `json:"cls"` // "P" | "O" | "U"
 	Ord int64  `json:"ord"`
+	// Aware (processors only): the processor also implements InstantiationAwareComponentPostProcessor; a processor
+	// without it is a plain ComponentPostProcessor (before / after initialization only)
+	Aware bool `json:"aware,omitempty"`
 }
 
 type Step struct {
@@ -145,6 +150,38 @@ type pO struct {
 }
 type pU struct{ procCore }
 
+// instantiation-aware processors: the callbacks around instantiation are recorded as sequences of their own
+type awareCore struct {
+	procCore
+	binst *[]int
+	props *[]int
+}
+
+func (p *awareCore) PostProcessBeforeInstantiation(m *component_definition.Meta, name string) (any, error) {
+	if name == "probe" {
+		*p.binst = append(*p.binst, p.id)
+	}
+	return nil, nil
+}
+func (p *awareCore) PostProcessAfterInstantiation(c any, name string) (bool, error) { return true, nil }
+func (p *awareCore) PostProcessProperties(ps []*component_definition.Property, c any, name string) ([]*component_definition.Property, error) {
+	if name == "probe" {
+		*p.props = append(*p.props, p.id)
+	}
+	return nil, nil
+}
+
+type paP struct {
+	awareCore
+	ordM
+	prioM
+}
+type paO struct {
+	awareCore
+	ordM
+}
+type paU struct{ awareCore }
+
 type probe struct{}
 
 func (*probe) Naming() string { return "probe" }
@@ -152,6 +189,9 @@ func (*probe) Init() error    { return nil }
 
 func classify(v any) Part {
 	p := Part{ID: v.(ider).PartID(), Cls: "U"}
+	if _, ok := v.(container.InstantiationAwareComponentPostProcessor); ok {
+		p.Aware = true
+	}
 	if oc, ok := v.(definition.Ordered); ok {
 		p.Ord = int64(oc.Order())
 		if _, ok := v.(definition.Priority); ok {
@@ -163,13 +203,23 @@ func classify(v any) Part {
 	return p
 }
 
-func build(kind string, parts []Part, log, after *[]int) []any {
+func build(kind string, parts []Part, log, after, binst, props *[]int) []any {
 	var res []any
 	for _, p := range parts {
 		c := core{id: p.ID, name: fmt.Sprintf("%s%d", kind, p.ID), log: log}
 		o := ordM{ord: int(p.Ord)}
 		var v any
-		switch kind + p.Cls {
+		key := kind + p.Cls
+		if kind == "processor" && p.Aware {
+			key = "aware" + p.Cls
+		}
+		switch key {
+		case "awareP":
+			v = &paP{awareCore: awareCore{procCore{c, after}, binst, props}, ordM: o}
+		case "awareO":
+			v = &paO{awareCore: awareCore{procCore{c, after}, binst, props}, ordM: o}
+		case "awareU":
+			v = &paU{awareCore: awareCore{procCore{c, after}, binst, props}}
 		case "directP":
 			v = &dP{core: c, ordM: o}
 		case "directO":
@@ -204,12 +254,12 @@ func build(kind string, parts []Part, log, after *[]int) []any {
 
 func runCase(c Case) (out Out) {
 	out = Out{ID: c.ID, Kind: c.Kind}
-	var log, after []int
+	var log, after, binst, props []int
 	kind := c.Kind
 	if kind == "loaderhist" {
 		kind = "loader"
 	}
-	vals := build(kind, c.Parts, &log, &after)
+	vals := build(kind, c.Parts, &log, &after, &binst, &props)
 	for _, v := range vals {
 		out.Facts = append(out.Facts, classify(v))
 	}
@@ -237,8 +287,15 @@ func runCase(c Case) (out Out) {
 			if err != nil {
 				out.Err = err.Error()
 			}
-			out.Seqs = [][]int{append([]int{}, log...), append([]int{}, after...)}
-			out.SeqName = []string{"before", "after"}
+			out.Seqs = [][]int{append([]int{}, log...), append([]int{}, after...), append([]int{}, binst...), append([]int{}, props...)}
+			out.SeqName = []string{"before", "after", "before-instantiation", "properties"}
+			var aware []Part
+			for _, f := range out.Facts {
+				if f.Aware {
+					aware = append(aware, f)
+				}
+			}
+			out.SeqFacts = [][]Part{out.Facts, out.Facts, aware, aware}
 		case "loader":
 			var ls []configure.Loader
 			for _, v := range vals {
